@@ -163,8 +163,34 @@ func (g *gen) parentFor(h uint64, cr uint32) ([]byte, tmconsensus.CommitProof, b
 	return []byte(ph), cp, true
 }
 
+// certifiedInRound returns the hash for which the harness already issued more than
+// 2/3 of precommits at (h, r), if any. Honest validators holding more than 2/3 of
+// the power never precommit two blocks in one round, so the harness issues at most
+// one certificate per round; a second "commit round" in the same round re-delivers
+// for the same block.
+func (g *gen) certifiedInRound(h uint64, r uint32) (string, bool) {
+	g.w.mu.Lock()
+	defer g.w.mu.Unlock()
+	for hash, rounds := range g.w.certs[h] {
+		for _, x := range rounds {
+			if x == r {
+				return hash, true
+			}
+		}
+	}
+	return "", false
+}
+
 // newLegitBlock builds a consistent block at the node's voting position.
 func (g *gen) newLegitBlock(h uint64, r uint32, cr uint32) (tmconsensus.ProposedHeader, bool) {
+	if hash, ok := g.certifiedInRound(h, r); ok {
+		g.w.mu.Lock()
+		bi := g.w.blocks[hash]
+		g.w.mu.Unlock()
+		if bi != nil {
+			return bi.ph, true
+		}
+	}
 	parent, cp, ok := g.parentFor(h, cr)
 	if !ok {
 		return tmconsensus.ProposedHeader{}, false
@@ -602,8 +628,10 @@ func (g *gen) attackVote(kind string, h uint64, r uint32) *voteMsg {
 		// For legit blocks of this round a certificate is fine (the harness is the
 		// network and may decide any legit block); unknown hashes are capped.
 		if bi, ok := g.w.blocks[hash]; ok && bi.legit && bi.h == h {
-			g.w.noteCert(h, hash, r)
-			return idxs
+			if other, have := g.certifiedInRound(h, r); !have || other == hash {
+				g.w.noteCert(h, hash, r)
+				return idxs
+			}
 		}
 		var out []int
 		var p uint64
